@@ -45,7 +45,7 @@ func b64(s string) string { return base64.StdEncoding.EncodeToString([]byte(s)) 
 
 var long64 = strings.Repeat("0123456789abcdef", 4)
 
-var parts = []string{"", "u", "p:q:r", "ü", "<&>", long64}
+var parts = []string{"", "u", "p:q:r", "ü", "<&>", long64, " s p ", "\t"} // incl. leading/trailing blanks and a whitespace-only secret
 
 var addrForms = []string{"h", "h:5000", "https://h/v1/", "http://h"}
 
